@@ -69,9 +69,25 @@ def _map_unwind(u, boff, caller_unwind):
     return u
 
 
-def inline_call(caller_mir, b, callee_mir):
+def _subst(x, m):
+    """Replace type parameters (by index) in a JSON fragment of callee MIR with the call site's generic arguments."""
+    if isinstance(x, dict):
+        if x.get('k') == 'param' and 'idx' in x and x['idx'] in m:
+            return m[x['idx']]
+        return {k: _subst(v, m) for k, v in x.items()}
+    if isinstance(x, list):
+        return [_subst(v, m) for v in x]
+    return x
+
+
+def inline_call(caller_mir, b, callee_mir, callee_generics=None):
     """Splice callee_mir into caller_mir at the call terminating block b. Mutates caller_mir."""
     t = caller_mir['blocks'][b]['term']
+    gargs = t['f'].get('args') or []
+    if callee_generics and len(gargs) == len(callee_generics):
+        m = {g['idx']: gargs[i] for i, g in enumerate(callee_generics) if g.get('kind') == 'type' and gargs[i].get('k') not in ('region', 'const')}
+        if m:
+            callee_mir = _subst(callee_mir, m)
     off = len(caller_mir['locals'])
     boff = len(caller_mir['blocks'])
     caller_unwind = t.get('unwind', 'continue')
@@ -153,7 +169,7 @@ def inline_unknown(facts, baseline=None):
                     tgt = t['f'].get('res', t['f'])
                     cdp = tgt.get('dp')
                     if cdp in unknown and cdp != dp and cdp in fns and len(mir['blocks']) + len(fns[cdp]['mir']['blocks']) < MAX_BLOCKS:
-                        inline_call(mir, b, copy.deepcopy(fns[cdp]['mir']))
+                        inline_call(mir, b, copy.deepcopy(fns[cdp]['mir']), fns[cdp].get('generics'))
                         done.append((dp, cdp))
                         changed = True
                 b += 1
